@@ -34,7 +34,8 @@ REQUIRED = {'families': 300, 'families.keyword-specificity': 30, 'calls': 1500, 
             'feature.exclusive': 30, 'feature.hidden': 100, 'feature.varargs': 50, 'feature.kwonly': 30,
             'reach.choose_overload': 1000, 'reach.map_args': 2000, 'reach.get_delegate': 500,
             'reach.collect_functions': 1000, 'reach._is_specialization_of': 50, 'probes.checked': 1000,
-            'registered.kind-by-flags': 100, 'registered.same-callable-twice': 20}
+            'registered.kind-by-flags': 100, 'registered.same-callable-twice': 20,
+            'error_flavour.checked': 500, 'error_flavour.null_receiver': 20}
 
 NAMES = ['x', 'y', 'z', 'w']
 
@@ -344,22 +345,38 @@ class Runner:
         except Exception as e:
             rec.inconc('call %r does not parse: %s' % (text, e))
             return
+        flavour = None
         try:
             res = st.evaluate(context=ctx)
             got = ('ran', res[0], res[1]) if isinstance(res, (list, tuple)) and len(res) == 2 else ('value', res)
         except yexc.NoFunctionRegisteredException:
             got = ('error', 'unknown')
+            flavour = 'function'
         except yexc.NoMethodRegisteredException:
             got = ('error', 'unknown')
-        except (yexc.NoMatchingFunctionException, yexc.NoMatchingMethodException):
+            flavour = 'method'
+        except (yexc.NoMatchingFunctionException, yexc.NoMatchingMethodException) as e:
             got = ('error', 'no-match')
-        except (yexc.AmbiguousFunctionException, yexc.AmbiguousMethodException):
+            flavour = 'method' if isinstance(e, yexc.NoMatchingMethodException) else 'function'
+        except (yexc.AmbiguousFunctionException, yexc.AmbiguousMethodException) as e:
             got = ('error', 'ambiguous')
+            flavour = 'method' if isinstance(e, yexc.AmbiguousMethodException) else 'function'
         except yexc.MappingTranslationException:
             got = ('error', 'translation')
         except Exception as e:
             got = ('error', 'other:' + type(e).__name__)
         trace = self.ticker.reset()
+        if flavour is not None:
+            # "... function/method error as appropriate": a call with a receiver fails with the method flavour of the
+            # error (whatever the receiver's value, null included), a call without one with the function flavour
+            rec.count('error_flavour.checked')
+            if call.method and call.args and call.args[0] in ('n', 'const:null'):
+                rec.count('error_flavour.null_receiver')
+            if flavour != ('method' if call.method else 'function'):
+                rec.violation('resolution-error-of-the-wrong-call-kind:%s' % got[1],
+                              '%s raised the %s flavour of the %r error' % (text, flavour, got[1]),
+                              {'kind': 'family', 'layers': [[o.desc() for o in layer] for layer in layers], 'exclusive': exclusive,
+                               'call': call.desc()})
         visible = [o for layer in layers for o in layer]
         rec.count('calls')
         rec.count('outcome.' + (want['outcome'][0] if want['outcome'][0] == 'ran' else want['outcome'][1]))
